@@ -222,6 +222,41 @@ func runC10(c *Ctx) {
 			if ir.IsNil(v) {
 				return true // checked below by must-precede
 			}
+			// a result variable: everything it may hold here is nil or what
+			// FailRemaining returned (the exits of a written-out helper meet
+			// in one return)
+			if ph, isPhi := ir.Strip(v).(*ssa.Phi); isPhi {
+				allOK := true
+				seenV := map[ssa.Value]bool{}
+				var leaves func(x ssa.Value)
+				leaves = func(x ssa.Value) {
+					x = ir.Strip(x)
+					if seenV[x] {
+						return
+					}
+					seenV[x] = true
+					if p2, ok := x.(*ssa.Phi); ok {
+						for _, e := range p2.Edges {
+							leaves(e)
+						}
+						return
+					}
+					if !ir.IsNil(x) && !valIsCallTo(fail)(x) {
+						allOK = false
+					}
+				}
+				leaves(ph)
+				if allOK {
+					// (each value it may hold is one of the tabled ways out)
+					for x := range seenV {
+						if _, isPhi := x.(*ssa.Phi); !isPhi {
+							nRet++
+						}
+					}
+					nRet--
+					return true
+				}
+			}
 			if c.deferredOnError(fn, r, mk[0], callTo(fail)) {
 				nDeferred++
 				return true
